@@ -5,14 +5,15 @@
 // in the same process: once uninterrupted (baseline) and once with the pause(s) and resume(s) the case
 // describes; the oracle compares the two runs and checks the responder's wire output while paused.
 //
-//	case <id> dag=<seed>:<maxblocks> sel=<name> side=req|resp mech=hook|api|step res=api|upd
+//	case <id> dag=<seed>:<maxblocks> sel=<name> side=req|resp mech=hook|api|both|step res=api|upd
 //	          k=<n>[,<n>…] m=<n> sched=<seed> w=<dq>,<dr>,<r>,<s>[,<sq>] qg=0|1 sg=0|1 qs=0|1
 //	remote <cids|->      responder's store
 //	put <cid> …          requestor's store
 //	run                  -> one summary line
 //
 // side  which peer pauses; mech  hook = hook action (PauseRequest / PauseResponse) in the k-th block
-// hook of that side, api = GraphExchange.Pause called while that hook runs, step = GraphExchange.Pause
+// hook of that side, api = GraphExchange.Pause called while that hook runs, both = the hook action AND
+// GraphExchange.Pause in the same hook call (one pause requested twice), step = GraphExchange.Pause
 // called by the harness at scheduler step k; res  api = GraphExchange.Unpause on the pausing side,
 // upd = (responder pause only) the requestor sends an update and the responder's update hook calls
 // UnpauseResponse; m = number of scheduler steps (message deliveries / gate releases) between the
@@ -96,7 +97,7 @@ func parseHeader(h string) (Params, bool) {
 				return p, false
 			}
 		case "mech":
-			if v != "hook" && v != "api" && v != "step" {
+			if v != "hook" && v != "api" && v != "step" && v != "both" {
 				return p, false
 			}
 			p.Mech = v
@@ -161,6 +162,7 @@ type runOut struct {
 	staleAtRes  int   // responder->requestor messages in flight at the (first) resume
 	bufAtPause  int
 	unpauseErrs []string
+	spurious    bool // paused although no requested pause was outstanding
 }
 
 const statePaused = int(graphsync.Paused)
@@ -177,6 +179,7 @@ func runOnce(w *tn.World, q *tn.Query, loc, rem []int, p Params, withPause bool)
 	s.SendGate[0].Enable(p.QS)
 	pending := append([]int{}, p.K...) // pause points not yet requested
 	pauseRequested := false
+	issued := 0 // pauses requested so far (one per pause point, whatever the number of sources)
 	api := func(note string, f func() error) {
 		s.LogEvent(tn.Event{Kind: tn.EvAPI, Req: 0, Note: note})
 		if err := f(); err != nil {
@@ -191,11 +194,13 @@ func runOnce(w *tn.World, q *tn.Query, loc, rem []int, p Params, withPause bool)
 				}
 				pending = pending[1:]
 				pauseRequested = true
-				if p.Mech == "hook" {
+				issued++
+				if p.Mech == "api" || p.Mech == "both" {
+					api("pause-request", func() error { return s.Nodes[0].Pause(s.Ctx, rr.ID) })
+				}
+				if p.Mech == "hook" || p.Mech == "both" {
 					s.LogEvent(tn.Event{Kind: tn.EvAPI, Req: 0, Note: "hook-pause-request"})
 					ha.PauseRequest()
-				} else {
-					api("pause-request", func() error { return s.Nodes[0].Pause(s.Ctx, rr.ID) })
 				}
 			}
 		} else {
@@ -205,11 +210,13 @@ func runOnce(w *tn.World, q *tn.Query, loc, rem []int, p Params, withPause bool)
 				}
 				pending = pending[1:]
 				pauseRequested = true
-				if p.Mech == "hook" {
+				issued++
+				if p.Mech == "api" || p.Mech == "both" {
+					api("pause-response", func() error { return s.Nodes[1].Pause(s.Ctx, r.ID) })
+				}
+				if p.Mech == "hook" || p.Mech == "both" {
 					s.LogEvent(tn.Event{Kind: tn.EvAPI, Req: 0, Note: "hook-pause-response"})
 					ha.PauseResponse()
-				} else {
-					api("pause-response", func() error { return s.Nodes[1].Pause(s.Ctx, r.ID) })
 				}
 			}
 		}
@@ -263,6 +270,12 @@ func runOnce(w *tn.World, q *tn.Query, loc, rem []int, p Params, withPause bool)
 			sincePause = 0
 			ro.pauses++
 			ro.pauseSeq = append(ro.pauseSeq, s.LogEvent(tn.Event{Kind: tn.EvState, Req: 0, Note: "paused"}))
+			if ro.pauses > issued {
+				// every requested pause has been resumed already: nobody will resume this one
+				ro.hang = fmt.Sprintf("the exchange paused itself again (pause #%d) although only %d pause(s) were requested and all of them were resumed: it never finishes", ro.pauses, issued)
+				ro.spurious = true
+				break
+			}
 		}
 		if paused && sincePause >= p.M {
 			resume()
@@ -271,6 +284,7 @@ func runOnce(w *tn.World, q *tn.Query, loc, rem []int, p Params, withPause bool)
 		if withPause && p.Mech == "step" && len(pending) > 0 && pending[0] == step && !paused && !done {
 			pending = pending[1:]
 			pauseRequested = true
+			issued++
 			api("pause-step", func() error { return s.Nodes[p.Side].Pause(s.Ctx, r.ID) })
 			continue
 		}
@@ -506,6 +520,10 @@ func judge(out *reg.Out, q *tn.Query, loc, rem []int, p Params, base, pr *runOut
 	}
 	if busy {
 		out.Cov("req.resume-while-active")
+	}
+	if pr.spurious {
+		out.Fail("pause-not-requested", "paused exchange (%d pause(s) took effect, %d resume(s)): %s", pr.pauses, pr.resumes, pr.hang)
+		return
 	}
 	if pr.hang != "" {
 		out.Fail(cls2("hang"), "paused exchange (%d pause(s) took effect, %d resume(s)): %s", pr.pauses, pr.resumes, pr.hang)
@@ -861,7 +879,7 @@ func genSplit(r *rand.Rand, w *tn.World, q *tn.Query, kind int) (loc, rem []int)
 func genParams(r *rand.Rand, q *tn.Query, i int, loc, rem []int) Params {
 	p := Params{Res: "api", W: [5]int{1, 1, 1, 1, 1}}
 	p.Side = i % 2
-	p.Mech = []string{"hook", "api", "hook", "step"}[(i/2)%4]
+	p.Mech = []string{"hook", "api", "both", "step", "hook", "api"}[(i/2)%6]
 	// number of block-hook calls on the pausing side in the uninterrupted exchange (reference semantics)
 	locS, remS := tn.SetOf(loc), tn.SetOf(rem)
 	n := 0
@@ -971,7 +989,7 @@ func Gen(seed int64, n int, tier string, wr *bufio.Writer) {
 			ws, mb, name, w, q := pickWorld(r, 8)
 			loc, rem := genSplit(r, w, q, d)
 			for side := 0; side < 2; side++ {
-				for _, mech := range []string{"hook", "api"} {
+				for _, mech := range []string{"hook", "api", "both"} {
 					for k := 1; k <= len(q.LT); k++ {
 						for _, m := range []int{0, 1, 3, 50} {
 							p := Params{Seed: ws, MB: mb, Sel: name, Side: side, Mech: mech, Res: "api", K: []int{k}, M: m,
